@@ -887,6 +887,27 @@ func (e *Engine) intrinsic(name string, fn *ssa.Function, args []Value) (Value, 
 	case "vTrace":
 		e.tracef("%s", str(0))
 		return nil, true
+	case "vKnownFields":
+		// the harness builds values of this struct type field by field: a field it does not know about
+		// (added by a change) would silently stay at its zero value, so this is a machinery stop
+		pv, ok := unwrapAny(args[0]).(PtrV)
+		if !ok || pv.L == nil {
+			e.unmodelled("vKnownFields: not a pointer to a struct")
+		}
+		st, ok := pv.L.typ.Underlying().(*types.Struct)
+		if !ok {
+			e.unmodelled("vKnownFields: not a pointer to a struct")
+		}
+		known := map[string]bool{}
+		for _, n := range strings.Fields(str(1)) {
+			known[n] = true
+		}
+		for i := 0; i < st.NumFields(); i++ {
+			if !known[st.Field(i).Name()] {
+				e.unmodelled(fmt.Sprintf("representation changed: field %q of %s is unknown to the harness that builds arbitrary states of it (update the constructor and its invariant)", st.Field(i).Name(), pv.L.typ))
+			}
+		}
+		return nil, true
 	case "vExpect":
 		e.h.Expect[str(0)] = str(1)
 		return nil, true
